@@ -44,6 +44,16 @@ theorem source_shape :
        ["left_token_pos", "left_token_pos", "usize::MAX"],
        ["tokens.len()", "tokens.len()", "usize::MAX"]] ∧
     userArmLets = ["output.len()", "pos + tokens_added", "tokens.len() - remaining.len()"] ∧
+    -- from substitution to splice (`applyLoop`, `user` arm: `substitute`, then `applyLoop (disable env mi) body'` on
+    -- EVERY path, then `splice`): no guard around the rescan of the substituted replacement list (seeded mutant C12-3)
+    userArmStatements =
+      ["let mut output = Vec::with_capacity(macro_def.tokens.len())",
+       "for token in &macro_def.tokens { if let Token::MacroArg(i) = token.0 { output.extend_from_slice(&args[i as usize]) } else { output.push(token.clone()); } }",
+       "assert!(!macro_disabled[macro_index])", "macro_disabled[macro_index] = true",
+       "let output = apply_macros_internal(output, macro_defs, macro_disabled, false, source_manager)?",
+       "assert!(macro_disabled[macro_index])", "macro_disabled[macro_index] = false",
+       "assert!(end > pos)", "let tokens_added = output.len()", "tokens.splice(pos..end, output)"] ∧
+    bodyAlwaysRescanned = true ∧
     searchPositionUses =
       ["search_pos.early_function_pos",
        "search_pos.last_macro_function_index == macro_index && i < search_pos.next_pos",
@@ -71,7 +81,7 @@ theorem source_shape :
     -- fix 3c81ed5 (`initialMacros`: `hasLineBreak`)
     apiDefineLineBreakRejected = true := by
   refine ⟨by decide, by decide, by decide, by decide, by decide, by decide, by decide, ?_, by decide, by decide,
-    by decide, by decide, by decide, by decide, by decide, by decide, by decide, by decide⟩
+    by decide, by decide +kernel, by decide, by decide, by decide, by decide, by decide, by decide, by decide, by decide⟩
   intro t; cases t <;> decide
 
 /-! ## Termination -/
@@ -584,8 +594,10 @@ that hide set.  A derivation exists exactly for the inputs accepted by the decis
 (`tame_class_is_decided`), in particular for every input over a table of object-like macros (`object_like_refines_spec`); the
 side conditions of `Tame` exclude the deviation classes `differs_*` below, and only those were found necessary:
 replacement lists without `##` (`WFMacro.noConcat`; `paste_*` treat `##`), what an argument expands to names no enabled
-macro (`OnlyDisabled`), no invocation spans the end of an expanded replacement list (`NoFire`), a function-like name
-that is not invoked is not followed by a line end and `(` (`Kept`). -/
+macro (`OnlyDisabled`) -- or nothing is expanded in the argument at all (`AllKept`: the bare name of a function-like
+macro that the replacement list goes on to invoke, `APPLY(NEG, a)`, `LIST(DECL)`: `agrees_on_higher_order_invocation`;
+its token carries exactly the hide set of the invocation, `Lemmas.MacroTameSpec.Exact`) --, no invocation spans the end
+of an expanded replacement list (`NoFire`), a function-like name that is not invoked is not followed by `(` (`Kept`). -/
 theorem expand_refines_spec (defs : List Macro) (toks out : List PTok) (hwf : ∀ m ∈ defs, WFMacro m)
     (h : Tame (allEnabled defs) toks out) :
     applyMacros defs toks = .ok out ∧
